@@ -17,8 +17,20 @@ func pipeTier(c *Check) (K0, K1, K2 int, vers string) {
 // corpusShapes: every corpus program (test snippets + grammar sentences) as written
 // and, for the programs the baseline accepts, with symbolic trivia in every n-th gap.
 func corpusShapes(c *Check, entry string, every int, onlyOK bool, fuel int64) error {
+	return corpusShapesLex(c, entry, every, 0, onlyOK, fuel)
+}
+
+// corpusShapesLex: as corpusShapes, plus S5 lexeme holes in every lex-th eligible token.
+func corpusShapesLex(c *Check, entry string, every, lex int, onlyOK bool, fuel int64) error {
 	rich := c.Tier == "thorough"
 	for _, ver := range []string{"7.4", "5.6"} {
+		if lex > 0 {
+			needs, err := c.lexemeJobs(entry, ver, lex, fuel)
+			if err != nil {
+				return err
+			}
+			c.ExploreNeeds(needs, nil)
+		}
 		needs, err := c.wholeJobs(entry, ver, fuel, onlyOK)
 		if err != nil {
 			return err
@@ -34,13 +46,16 @@ func corpusShapes(c *Check, entry string, every int, onlyOK bool, fuel int64) er
 	}
 	c.ExploreNeeds(longShapes(entry, fuel), nil)
 	c.Bounds = append(c.Bounds, corpusBound(every, rich), longBound)
+	if lex > 0 {
+		c.Bounds = append(c.Bounds, bound("S5: in every %d-th name, variable, integer, string body and inline-HTML token of these programs one byte is replaced by a symbolic byte of the same lexical class (first/later byte of a name incl. bytes >= 0x80; digit; any string-body byte that starts nothing special incl. line terminators; any HTML byte except '<')", lex))
+	}
 	return nil
 }
 
 func corpusBound(every int, rich bool) string {
 	s := "program shapes: the committed corpus (snippets of the repository's own tests + one sentence per production, per subset of optional right-hand-side symbols and per parent/child production pair of php5.y and php7.y) under 7.4 and 5.6, as written"
 	if every > 0 {
-		s += bound("; test snippets and production/optional sentences additionally with symbolic trivia in every %d-th inter-token gap (white space 1..2 bytes of every newline style, /*..*/, #..\\n%s), one gap at a time", every, map[bool]string{true: ", //..\\r\\n, /** */, 3-byte white space", false: ""}[rich])
+		s += bound("; test snippets and production/optional sentences additionally with symbolic trivia in every %d-th inter-token gap (white space 1..2 bytes of every newline style, /*..*/, #..\\n%s; for C02/C04/C05 also the gap emptied or reduced to one blank), one gap at a time", every, map[bool]string{true: ", //..\\r\\n, /** */, 3-byte white space", false: ""}[rich])
 	}
 	return s
 }
@@ -50,7 +65,8 @@ func runC02(c *Check) error {
 	c.Bounds = append(c.Bounds, shortBounds(K0, K1, K2, vers)...)
 	c.Assumptions = append(c.Assumptions, stdAssumptions...)
 	c.ExploreNeeds(shortShapes("H_C02", K0, K1, K2, vers, 900_000), nil)
-	return corpusShapes(c, "H_C02", tierEvery(c, 6, 2), true, 3_000_000)
+	c.TriviaEmpty = true
+	return corpusShapesLex(c, "H_C02", tierEvery(c, 6, 2), tierEvery(c, 4, 1), true, 3_000_000)
 }
 
 func runC04(c *Check) error {
@@ -58,7 +74,8 @@ func runC04(c *Check) error {
 	c.Bounds = append(c.Bounds, shortBounds(K0, K1, K2, vers)...)
 	c.Assumptions = append(c.Assumptions, stdAssumptions...)
 	c.ExploreNeeds(shortShapes("H_C04", K0, K1, K2, vers, 900_000), nil)
-	return corpusShapes(c, "H_C04", tierEvery(c, 6, 2), false, 3_000_000)
+	c.TriviaEmpty = true
+	return corpusShapesLex(c, "H_C04", tierEvery(c, 6, 2), tierEvery(c, 4, 1), false, 3_000_000)
 }
 
 func runC06(c *Check) error {
